@@ -14,6 +14,7 @@ VARIANT = "asan"
 WRAPS = ("read", "write", "json_tokener_parse_ex")
 EXTRA_FLAGS = ("-pthread",)
 SLICE = 150
+TIMEOUT = 300
 RULE = ("documents (generated trees serialized by the library under several flag sets; valid, truncated, garbage, "
         "deeply nested and exactly 4095/4096/4097/8191/8192/8193-byte texts) x transfer schedules imposed through "
         "--wrap=read,write: everything at once, 1 byte per call, fixed 4095/4096/4097-byte pieces, random sizes, "
